@@ -43,6 +43,7 @@ func genC20(o *vcoq.Out, r *vcoq.Rand, tier string) error {
 	g.constructors()
 	g.vendStore()
 	g.meterMask()
+	g.stockMask()
 	return nil
 }
 
